@@ -1,11 +1,13 @@
 (* One entry point for the extracted binary: component id -> runner. *)
 From Coq Require Import ZArith List.
-From Abm Require Import Base.Sx Spaces.Space Spaces.Ravel.
+From Abm Require Import Base.Sx Spaces.Space Spaces.Ravel Spaces.Flatten.
 Open Scope Z_scope.
 
 Definition run_model (id : Z) (x : sx) : sx :=
   match id with
   | 401 => run_ravel x
   | 402 => run_chk_C04 x
+  | 501 => run_flatten x
+  | 502 => run_chk_C05 x
   | _ => sx_err
   end.
